@@ -31,11 +31,11 @@ df = import_df()
 import discretisedfield.tools as dft  # noqa: E402
 import discretisedfield.util as dfu  # noqa: E402
 
-# Observed on the unchanged tree and reported to the maintainer (not judged until decided there):
-#  - neighbouring_cell_angle returns a mesh with DEFAULT dimension names / units;
-#  - tools read the cell length as getattr(mesh, f"d{dim}"), which for a dimension named 'V' is the cell volume;
-#  - demag_field pads 'x','y','z' by name and refuses meshes with other dimension names.
-JUDGE_NAMES = False
+# custom dimension names / units: judged for the angle tools since /repo 92e592a2 (the result mesh keeps names and
+# units; the cell LENGTH of a dimension named 'V' is used, not Mesh.dV).  Still only observed (reported to the
+# maintainer, not judged until decided there): demag_field pads 'x','y','z' by name and refuses other names.
+JUDGE_NAMES = True
+JUDGE_DEMAG_NAMES = False
 C4 = 1 / (4 * np.pi)
 PI4 = 4 * np.pi
 RTOL = 1e-7
@@ -269,7 +269,9 @@ def angle_case(rng):
                for _ in range(n)]
     dims = units_ = None
     if rng.random() < 0.4:
-        dims = rng.sample(["a", "b", "c", "z", "x", "n", "e", "q"], nd)
+        dims = rng.sample(["a", "b", "c", "z", "x", "n", "e", "q", "V", "V"], nd)
+        while len(set(dims)) < nd:
+            dims = rng.sample(["a", "b", "c", "z", "x", "n", "e", "q", "V"], nd)
         units_ = rng.choice([None, ["nm", "um", "s"][:nd]])
     return dict(kind="angle", sh=sh, cell=[g.qs(x) for x in cell], p1=[g.qs(x) for x in p1], ax=ax,
                 units=rng.choice(["rad", "rad", "deg"]), vals=[g.qs(x) for x in np.array(arr).reshape(-1).tolist()],
@@ -730,6 +732,12 @@ def run_angle(c, rec):
     # max_neighbouring_cell_angle / count_large_cell_angle_regions consistency (same function, all directions)
     if len(sh) == 3 and all(k > 1 for k in sh):
         st, mx = attempt(lambda: dft.max_neighbouring_cell_angle(f, units=c["units"]))
+        # MAXANGLE note: on the unchanged tree max_neighbouring_cell_angle raises ValueError when a direction
+        # other than the first has exactly 2 cells (array.squeeze() also drops that axis); reported to the
+        # maintainer, observed here, judged only for meshes with >= 3 cells per direction
+        rec["obs_max_angle"] = st if st == "ok" else str(mx)
+        if st != "ok" and all(k > 2 for k in sh):
+            rec["oracle"].append("max-angle-raised")
         if st == "ok":
             m = mx.array.squeeze()
             per = []
@@ -1113,7 +1121,7 @@ def run_names(c, rec):
     unless JUDGE_NAMES (see the note at the top of this file)"""
     import random
     rng = random.Random(c["seed"])
-    sh = [[4, 3, 4], [3, 3, 2], [2, 4, 3]][c["variant"]]
+    sh = [[4, 3, 4], [3, 3, 3], [3, 4, 3]][c["variant"]]      # >= 3 cells per direction (see MAXANGLE note)
     cell = [[1.0, 2.0, 0.5], [0.5, 0.5, 4.0], [2.0, 1.0, 0.25]][c["variant"]]
     reg = df.Region(p1=(0, 0, 0), p2=[k * h for k, h in zip(sh, cell)], dims=("a", "b", "V"), units=("nm", "um", "s"))
     mesh = df.Mesh(region=reg, n=sh)
@@ -1146,7 +1154,7 @@ def run_names(c, rec):
     st, r = attempt(lambda: dft.demag_field(f, dft.demag_tensor(mesh)).array)
     r0 = dft.demag_field(ref, dft.demag_tensor(ref.mesh)).array
     obs["demag-field"] = bool(st == "ok" and not far(r, r0, 1e-9))
-    if JUDGE_NAMES and not obs["demag-field"]:
+    if JUDGE_DEMAG_NAMES and not obs["demag-field"]:
         rec["oracle"].append("demag-field-on-custom-named-mesh-differs")
     # 2-d slice named ('a','V'): both charge methods
     m2 = df.Mesh(region=df.Region(p1=(0, 0), p2=(sh[0] * cell[0], sh[2] * cell[2]), dims=("a", "V")), n=(sh[0], sh[2]))
@@ -1339,6 +1347,8 @@ def stats(records):
         1 for r in records if r["kind"] == "meta" and r.get("obs", {}).get("risky"))
     out["angle_results_that_dropped_custom_names"] = sum(
         1 for r in records if r["kind"] == "angle" and r["case"].get("dims") and r.get("obs_names_kept") is False)
+    out["max_angle_raised_with_a_2_cell_direction"] = sum(
+        1 for r in records if r["kind"] == "angle" and r.get("obs_max_angle") not in (None, "ok"))
     out["names_probe"] = [r.get("obs") for r in records if r["kind"] == "names"][:1]
     out["masked"] = sum(1 for r in records if r["case"].get("valid") and not all(r["case"]["valid"]))
     return out
